@@ -133,7 +133,11 @@ class DynBaseRefDict(RefDict):
 
         if isinstance(value.interface, Interface) and value.interface._is_valid():
 
-            if value.is_relative:   # value.is_relative is set to True
+            # A derived 'auto' reference is not relative to its deriving
+            # space when the target lies outside the base space, but the
+            # target may still be inside the tree being replicated.
+            if value.is_relative or value.refmode == "auto":
+                                    # value.is_relative is set to True
                                     # When value.is_defined and
                                     # value.refmode == "relative"
 
@@ -148,7 +152,7 @@ class DynBaseRefDict(RefDict):
                         impl[rootlen+1:]) # +1 to remove preceding dot
                 else:
                     if value.refmode == "auto":
-                        if value.is_defined():
+                        if value.is_defined() or not value.is_relative:
                             return value
                         else:
                             return value.direct_bases[0]
